@@ -251,6 +251,7 @@ class RealWorld(object):
         self.wd = wd
         self.path = os.path.join(wd, 'supervisord.conf')
         self.logger = logger or NullLogger()
+        self.xml_hostile = 0
 
     def write(self, text):
         if text is None:
@@ -284,22 +285,38 @@ class RealWorld(object):
         for cfg in o.process_group_configs:
             self.sup.add_process_group(cfg)
         self.rpc = rpcinterface.SupervisorNamespaceRPCInterface(self.sup)
+        from rpcstack import RpcStack
+        self.stack = RpcStack(self.sup, [('supervisor', self.rpc)])
         return o.process_group_configs
 
     def cur_configs(self):
         return [g.config for g in self.sup.process_groups.values()]
 
     def reload(self):
-        from supervisor.xmlrpc import RPCError
+        """supervisor.reloadConfig through the real XML-RPC handler (harness/rpcstack.py): an
+        exception escaping the method shows as ('exc', 'http', 500), as a client would see it"""
         try:
-            v = self.rpc.reloadConfig()
-        except RPCError as e:
-            return ('fault', e.code, e.text)
+            r = self.stack.call('supervisor.reloadConfig', ())
         except Exception as e:
             return ('exc', type(e).__name__, str(e))
         except SystemExit as e:
             return ('exc', 'SystemExit', str(e))
-        return ('ok', v)
+        if r[0] == 'value':
+            return ('ok', r[1])
+        if r[0] == 'fault':
+            return ('fault', r[1], '')
+        if r[0] == 'deferred':
+            return ('exc', 'deferred', '')
+        if r[0] == 'malformed-xml':
+            # the fault text quotes a control character of the file (NUL, ...) that XML 1.0 cannot
+            # carry: the known XML-RPC marshalling limitation (C16-xmlctl), not a matter of reread.
+            # Judge what the method itself answered.
+            d = self.stack.direct('supervisor.reloadConfig', ())
+            self.xml_hostile += 1
+            if d[0] == 'fault':
+                return ('fault', d[1], 'xml-hostile')
+            return ('exc',) + tuple(d)
+        return ('exc',) + tuple(r)
 
     def snapshot(self):
         """identities and serialised values of everything a failed reread must leave alone"""
